@@ -1979,6 +1979,7 @@ def inline_closure_calls(prog, fn, depth=2):
             work.append((j, dep + 1))
     if not done:
         return fn
+    _thread_jumps(blocks)
     d = {k: v for k, v in fn.d.items() if k not in ("blocks", "locals")}
     d["locals"] = locals_
     d["blocks"] = blocks
